@@ -176,5 +176,19 @@ func init() {
 	reg(&Oblig{ID: "C128-len", Pkg: "code128", Func: "VP_C128_len", Props: []string{"C05", "C10"},
 		Desc: "length limits: 80 characters accepted, 81 rejected (lower-case letters, symbolic)", Real: []string{"code128.Encode"},
 		Bound: "n in {1, 79, 80, 81, 100} characters: symbolic lower-case letters, of which 0, 1 or 40 are FNC1 (two bytes each in the string)",
-		Configs: tiered(cross(one("n", 1, 80, 81), one("fnc", 0, 1, 40)), cross(one("n", 1, 79, 80, 81, 100), one("fnc", 0, 1, 40, 79)))})
+		Configs: func(tier string, seed int64) []map[string]int {
+			ns, fs := []int{1, 80, 81}, []int{0, 1, 40}
+			if tier == "thorough" {
+				ns, fs = []int{1, 79, 80, 81, 100}, []int{0, 1, 40, 79}
+			}
+			var out []map[string]int
+			for _, n := range ns {
+				for _, f := range fs {
+					if f <= n {
+						out = append(out, map[string]int{"n": n, "fnc": f})
+					}
+				}
+			}
+			return out
+		}})
 }
